@@ -1,6 +1,7 @@
 import IpcHub.Drv.Util
 import IpcHub.Model.RtspSessionInst
 import IpcHub.Spec.RtspAutomaton
+import IpcHub.Model.WspProtocol
 /-
 C12 driver ops (one output line per input line):
 
@@ -10,6 +11,7 @@ C12 driver ops (one output line per input line):
       un <n> { <ctrl-hex> <norm-hex|!> } in <n> { R <METHOD> <cseq> <path> <setupPath> <transport> <ctype> <range> <body> <udpok> | H }
       the model's prediction: per input `responses;consumers published closed`, joined by " | ",
       then " || ch=<channels> role=<role> paused=<b>" of the final state
+  wspdec <hex>   wsp.DecodeStringRequest on the text
   judge <rtsp|wsp> { <hangup> <METHOD> <transport-hex> <nresp> <code> <cseqOk> <sidOk> <consumers> <published> <closed> }*
       the specification's verdict on an observed dialogue
 -/
@@ -232,7 +234,25 @@ partial def pMany {α} (p : P α) : P (List α) := fun s =>
       | none => none
       | some (as, r') => some (a :: as, r')
 
+def insertSorted (p : String × String) : List (String × String) → List (String × String)
+  | [] => [p]
+  | q :: r => if p.1 < q.1 then p :: q :: r else q :: insertSorted p r
+
+def handleWspDec (h : String) : String :=
+  match hexToChars h with
+  | none => "bad-op"
+  | some s =>
+    match IpcHub.Wsp.decodeStringRequest s with
+    | .error e =>
+      "err=" ++ (match e with
+        | .noSeparator => "separator" | .firstLine => "firstline" | .proto => "proto" | .command => "command")
+    | .ok q =>
+      let hs := (q.header.map (fun p => (charsToHex p.1, charsToHex p.2))).foldr insertSorted []
+      let hstr := String.intercalate "," (hs.map (fun p => p.1 ++ ":" ++ p.2))
+      s!"cmd={charsToHex q.cmd} h={if hstr.isEmpty then "none" else hstr} body={charsToHex q.body}"
+
 def handle : List String → String
+  | ["wspdec", h] => handleWspDec h
   | "pt" :: init :: rest => handlePt init rest
   | "run" :: rest =>
     match pRun rest with
